@@ -126,13 +126,10 @@ func regexify(name string) (*regexp.Regexp, error) {
 	if name == "" {
 		name = "(?i).*"
 	}
-	// Anchor if required.
-	if !strings.HasPrefix(name, "^") {
-		name = fmt.Sprintf("^%s", name)
-	}
-	if !strings.HasSuffix(name, "$") {
-		name = fmt.Sprintf("%s$", name)
-	}
+	// Anchor the whole expression.  The group ensures that the anchors apply to every
+	// alternative of an expression such as "Wallet1|Wallet2" rather than to its first and
+	// last alternatives only.
+	name = fmt.Sprintf("^(?:%s)$", name)
 	// Case insensitivity if required.
 	if !strings.HasPrefix(name, "(?i)") {
 		name = fmt.Sprintf("(?i)%s", name)
